@@ -195,3 +195,15 @@ LEVEL_TEXT = ("bounded symbolic model checking: the real gross_range_test / vali
               "on every path; counterexamples are replayed on the real numpy stack")
 LEVEL_NOTE = "bounds: n<=4 (quick) / 6 (thorough), grid G; numpy.ma is an environment model validated by per-path witnesses"
 TECHNIQUE = "symbolic execution of the real Python source over a modelled numpy + z3 (SMT, QF_LRA)"
+
+
+def _gr_valid(self, S):
+    from symex.values import mk_and
+    if S.s is None:
+        return TRUE
+    fmin, fmax = zmin(S.f[0].v, S.f[1].v), zmax(S.f[0].v, S.f[1].v)
+    smin, smax = zmin(S.s[0].v, S.s[1].v), zmax(S.s[0].v, S.s[1].v)
+    return mk_and(smin >= fmin, smax <= fmax)
+
+
+GrossRange.valid_params = _gr_valid
